@@ -174,6 +174,16 @@ func S6(maxPacket, ops, digests, dups, holds int, membership bool) *Scenario {
 			{Kind: "rmep", K: "e1"},
 		}
 	}
+	if maxPacket == 1401 {
+		// S6y: endpoint ids that contain the separator of the gossip key
+		// ("endpoint:<id>"), one of them a prefix of the other
+		sc.Name = "S6y-routing-ids-with-colons"
+		sc.MaxPacket = 1400
+		sc.Ops[0] = []Event{
+			{Kind: "addep", K: "db"}, {Kind: "addep", K: "db:5432"},
+			{Kind: "rmep", K: "db:5432"}, {Kind: "rmep", K: "db"}, {Kind: "addep", K: "db:5433"},
+		}
+	}
 	if membership {
 		sc.Name = "S6m-routing-membership"
 		sc.Ops[0] = append(sc.Ops[0], Event{Kind: "leave"})
